@@ -85,7 +85,7 @@ def run_J3(ctx, case):
         # ---------------- phase 1: prologue -> loop header (4.6.1)
         try:
             r = m.run(0, stop={HEADER}, max_steps=400)
-        except (Undecodable, Fault, OOB) as e:
+        except (Fault, OOB) as e:      # Undecodable = limitation of the x86 model: propagates, the job is INCONCLUSIVE (never a violation)
             chk(False, 'prologue does not execute: %s' % e); return
         chk(r == ('stop', HEADER), 'prologue reaches the loop header (got %s)' % (r,))
         pc = fk['pc']
@@ -143,7 +143,7 @@ def run_J3(ctx, case):
         m.align_checks = []; del m.accesses[:]; m.trace = []
         try:
             r = run_iteration(m, HEADER, ctx, info, v2, hard)
-        except (Undecodable, Fault, OOB) as e:
+        except (Fault, OOB) as e:      # Undecodable = limitation of the x86 model: propagates, the job is INCONCLUSIVE (never a violation)
             chk(False, 'loop body does not execute: %s' % e); return
         npaths[0] += 1; pc = fk['pc']; kind = r[0]; phase_seen.add(kind)
         if 'pre' not in st: chk(False, 'program area not reached'); return
@@ -392,7 +392,7 @@ def run_J5(ctx, case):
             if not c: q.failed.append(('%s: %s' % (tag, what), {}))
         try:
             r = m.run(0, max_steps=4000)
-        except (Undecodable, Fault, OOB) as e:
+        except (Fault, OOB) as e:      # Undecodable = limitation of the x86 model: propagates, the job is INCONCLUSIVE (never a violation)
             chk(False, 'compiled dataset initialiser does not execute: %s' % e); return
         npaths[0] += 1; pc = fk['pc']
         chk(r[0] == 'ret' and isinstance(r[1], Ptr) and r[1].obj == 'caller', 'returns to the caller')
